@@ -187,6 +187,9 @@ func RefDecodeAmount(b []byte) (*big.Int, error) {
 	case len(b) == 0:
 		return nil, errWire
 	case len(b) == 1:
+		if b[0] != 0 {
+			return nil, errWire // only {0} is the documented encoding of an absent amount
+		}
 		return nil, nil
 	}
 	v := new(big.Int).SetBytes(b[1:])
